@@ -27,6 +27,10 @@ CLAIMED = {
    text='Decides structural clauses of configuration handling: coercion dominates every storage write and storage is only rebound to persistent-operation results; opcode and scope exhaustiveness; lookup order (first hit wins, given order, default; compiler passes session, database, system); JSON key agreement, SQL operation-row order vs Operation.from_json and opcode validity per IR class, case-split agreement of the value converters; ScalarType kind coverage across sibling functions; opcode-to-storage-operation agreement; static evaluation maps each ConfigCommand to its namesake opcode with scope and name unchanged. Value-level text round trips are not decided.',
    note=NOTE + ' The Cython consumers (protocol/execute.pyx, dbview.pyx) are out of reach.',
    technique='static analysis: CFG dominance (validate-before-write), enum/branch exhaustiveness, writer/reader table agreement incl. SQL row producers, sibling-function case coverage over the class hierarchy'),
+ 'C14': dict(
+   text='Decides for sertypes.py: per protocol generation, the regular language of field-width sequences each descriptor encoder can emit is included in the language its tag decoder reads (product-automaton inclusion, widths derived from struct formats and packer bodies) plus length framing; tag table consistency; every per-element list written into a shape-like descriptor is an argument of the content id; dedup discipline (early return iff already described, single buffer writer, references by position). One listed known finding (sources not covered by the shape id). That the described shape equals the query shape is not decided.',
+   note=NOTE + ' Field identity is abstracted to width and order; which count governs which loop is forgotten.',
+   technique='static analysis: abstract interpretation of writer/reader functions into regular expressions over field widths, NFA product inclusion; registry/table extraction; argument-coverage of id functions'),
 }
 
 _PENDING = 'check not built yet in this round (design in DESIGN.md §3); will be claimed when its rules are armed'
